@@ -857,6 +857,20 @@ pub fn generate(rng: &mut Rng, prop: Prop, thorough: bool) -> (HistScenario, Str
                         steps.push(mk(rng, Op::RemoveAbsentMany { n: pow - m }, "remove_absent_many"));
                         steps.push(mk(rng, Op::Validate { times: 1 }, "validate"));
                     }
+                    9 if d.members.iter().any(|m| matches!(m, gen::Member::Junk(j) if !j.trim().is_empty() && !j.contains("/*") && !j.contains("//"))) => {
+                        // the stray tokens are blanked out in place: every other position stays what it was
+                        let mut n = d.clone();
+                        for m in n.members.iter_mut() {
+                            if let gen::Member::Junk(j) = m {
+                                if !j.contains("/*") && !j.contains("//") {
+                                    *j = " ".repeat(j.len());
+                                }
+                            }
+                        }
+                        let c = Content::Doc(n);
+                        st.live.insert(pb(&p), (p.clone(), c.clone()));
+                        steps.push(mk(rng, Op::Add { path: p, content: c }, "blank_out_stray_tokens"));
+                    }
                     10 | 11 => {
                         // broken for a moment, then the very same text again (editor: type, undo)
                         let broken = if rng.pct(50) {
@@ -1034,7 +1048,13 @@ pub fn generate(rng: &mut Rng, prop: Prop, thorough: bool) -> (HistScenario, Str
                     .filter(|q| st.disk.contains_key(&disk_slot(q)))
                     .cloned()
                     .collect();
-                let p = if on_disk.is_empty() || rng.pct(8) {
+                let p = if !on_disk.is_empty() && rng.pct(4) {
+                    // a directory instead of a file (the parent of a file on disk)
+                    match rng.pick(&on_disk).rsplit_once('/') {
+                        Some((dir, _)) if !dir.is_empty() => dir.to_owned(),
+                        _ => "src".to_owned(),
+                    }
+                } else if on_disk.is_empty() || rng.pct(8) {
                     rng.pick(&st.paths).clone() // maybe missing
                 } else {
                     rng.pick(&on_disk).clone()
